@@ -7,6 +7,7 @@ interpreters do not understand ends the run with AnalysisError (never a verdict)
 import ast
 
 from .model import AnalysisError, NotConst
+from .codec_inline import inlined_body
 
 ENC_HELPERS = {"encodeString": "str", "encode16Int": "u16", "encodeLength": "remlen"}
 
@@ -42,7 +43,9 @@ class EncoderLayout:
         self.result = None
         self.loopvars = {}
         self.guards = []
-        self._run(self.fn.node.body)
+        self.alias = {}           # local name -> name of the buffer it denotes (x = buf, x = bytes(buf), helper results)
+        self.body, self.helpers = inlined_body(prog, cls, self.fn)
+        self._run(self.body)
         if self.result is None:
             raise AnalysisError("encode() of %s returns no recognisable buffer" % cls.name)
 
@@ -121,8 +124,60 @@ class EncoderLayout:
         return ("bits", a[1] | b[1], tuple(a[2]) + tuple(b[2]))
 
     # ---- buffer expressions ----------------------------------------------
+    def canon(self, name):
+        seen = set()
+        while name in self.alias and name not in seen:
+            seen.add(name)
+            name = self.alias[name]
+        return name
+
+    def view_of(self, n):
+        """Name of the buffer an expression is a view / copy-conversion of: buf, bytes(buf), str(buf), `str(buf) if PY2 else bytes(buf)`."""
+        if isinstance(n, ast.Name):
+            c = self.canon(n.id)
+            return c if c in self.bufs else None
+        if is_self_attr(n) and n.attr in getattr(self, "selfbuf", {}):
+            return self.selfbuf[n.attr]
+        if isinstance(n, ast.Call) and isinstance(n.func, ast.Name) and n.func.id in ("bytes", "str") and len(n.args) == 1 and not n.keywords:
+            return self.view_of(n.args[0])
+        if isinstance(n, ast.IfExp):
+            a, b = self.view_of(n.body), self.view_of(n.orelse)
+            return a if a is not None and a == b else None
+        return None
+
+    def hi_lo_pair(self, elts):
+        """(x) when the two expressions are the high and the low byte of one value x: x >> 8 / x & 0xFF, x // 256 / x % 256,
+        or the two results of divmod(x, 256)."""
+        if len(elts) != 2:
+            return None
+        a, b = elts
+
+        def hi(e):
+            if isinstance(e, ast.BinOp) and isinstance(e.op, ast.RShift) and self.fold(e.right) == (True, 8):
+                return e.left
+            if isinstance(e, ast.BinOp) and isinstance(e.op, ast.FloorDiv) and self.fold(e.right) == (True, 256):
+                return e.left
+            if isinstance(e, ast.Name) and self.vals.get(e.id, (None,))[0] == "hi8":
+                return self.vals[e.id][2]
+            return None
+
+        def lo(e):
+            if isinstance(e, ast.BinOp) and isinstance(e.op, ast.BitAnd) and self.fold(e.right) == (True, 255):
+                return e.left
+            if isinstance(e, ast.BinOp) and isinstance(e.op, ast.Mod) and self.fold(e.right) == (True, 256):
+                return e.left
+            if isinstance(e, ast.Name) and self.vals.get(e.id, (None,))[0] == "lo8":
+                return self.vals[e.id][2]
+            return None
+        x, y = hi(a), lo(b)
+        if x is not None and y is not None and ast.dump(x) == ast.dump(y):
+            return x
+        return None
+
     def bufexpr(self, n):
         """Segments produced by an expression that evaluates to a byte sequence."""
+        if isinstance(n, ast.BinOp) and isinstance(n.op, ast.Add):
+            return self.bufexpr(n.left) + self.bufexpr(n.right)
         if isinstance(n, ast.Call) and isinstance(n.func, ast.Name):
             f = n.func.id
             self.calls.add(f)
@@ -131,6 +186,18 @@ class EncoderLayout:
             if f == "bytearray":
                 if not n.args and not n.keywords:
                     return []
+                if len(n.args) == 1 and not n.keywords and isinstance(n.args[0], (ast.Tuple, ast.List)):
+                    # bytearray((b0, b1, ..)): one byte per element; the high/low pair of one value is a 16-bit integer
+                    x = self.hi_lo_pair(n.args[0].elts)
+                    if x is not None:
+                        return [("u16", self.vdesc(x), U(x))]
+                    return [("byte", self.vdesc(e), U(e)) for e in n.args[0].elts]
+                if len(n.args) == 1 and not n.keywords and isinstance(n.args[0], ast.Call) and isinstance(n.args[0].func, ast.Name) \
+                        and n.args[0].func.id == "divmod" and len(n.args[0].args) == 2 and self.fold(n.args[0].args[1]) == (True, 256):
+                    x = n.args[0].args[0]
+                    return [("u16", self.vdesc(x), U(x))]
+                if len(n.args) == 1 and not n.keywords and self.view_of(n.args[0]) is not None:
+                    return list(self.bufs[self.view_of(n.args[0])])
                 ok, v = self.fold(n.args[0]) if n.args else (False, None)
                 if ok and isinstance(v, int) and not n.keywords and len(n.args) == 1:
                     return [("byte", ("const", 0), "0")] * v
@@ -146,14 +213,20 @@ class EncoderLayout:
                         enc = v2
                     elif kw.arg == "errors":
                         errors = v2
-                return [("text", self.vdesc(n.args[0]), enc, errors, U(n.args[0]))]
+                src = n.args[0]
+                stxt = ("self." + self.vals[src.id][1]) if isinstance(src, ast.Name) and self.vals.get(src.id, (None,))[0] == "field" else U(src)
+                return [("text", self.vdesc(src), enc, errors, stxt)]
             if f in ("bytes", "str") and len(n.args) == 1:
                 return self.bufexpr(n.args[0])
         if isinstance(n, ast.Name):
-            if n.id in self.bufs:
-                return [("sub", n.id, tuple(self.bufs[n.id]))]
+            c = self.canon(n.id)
+            if c in self.bufs:
+                return [("sub", c, tuple(self.bufs[c]))]
             if n.id in self.vals and self.vals[n.id][0] == "bufval":
                 return list(self.vals[n.id][1])
+            if n.id in self.vals and self.vals[n.id][0] == "field":
+                self.fields_read.add(self.vals[n.id][1])
+                return [("raw", self.vals[n.id], "self." + self.vals[n.id][1])]
         if is_self_attr(n):
             self.fields_read.add(n.attr)
             return [("raw", ("field", n.attr), U(n))]
@@ -170,7 +243,7 @@ class EncoderLayout:
                 return
             c = s.value
             if isinstance(c, ast.Call) and isinstance(c.func, ast.Attribute) and isinstance(c.func.value, ast.Name):
-                b, m = c.func.value.id, c.func.attr
+                b, m = self.canon(c.func.value.id), c.func.attr
                 if b in self.bufs and m == "extend" and len(c.args) == 1:
                     self.bufs[b] = self.bufs[b] + self.bufexpr(c.args[0])
                     return
@@ -184,32 +257,73 @@ class EncoderLayout:
             t = s.targets[0]
             if isinstance(t, ast.Name):
                 v = s.value
+                self.alias.pop(t.id, None)
+                vw = self.view_of(v)
+                if vw is not None:
+                    # another name for (or a bytes()/str() view of) an existing buffer
+                    if vw != t.id:
+                        self.alias[t.id] = vw
+                        self.bufs.pop(t.id, None)
+                    self.vals.pop(t.id, None)
+                    return
                 if isinstance(v, ast.Call) and isinstance(v.func, ast.Name) and v.func.id in ("bytearray",) + tuple(ENC_HELPERS):
                     self.bufs[t.id] = self.bufexpr(v)
                     self.vals.pop(t.id, None)
                     return
+                if isinstance(v, ast.BinOp) and isinstance(v.op, ast.Add) and any(
+                        isinstance(x, ast.Name) and self.canon(x.id) in self.bufs for x in (v.left, v.right)):
+                    self.bufs[t.id] = self.bufexpr(v)
+                    self.vals.pop(t.id, None)
+                    return
+                if isinstance(v, ast.Constant) and v.value is None:
+                    self.vals[t.id] = ("const", None)
+                    return
                 self.vals[t.id] = self.vdesc(v)
                 return
-            if isinstance(t, ast.Subscript) and isinstance(t.value, ast.Name) and t.value.id in self.bufs:
+            if isinstance(t, ast.Tuple) and len(t.elts) == 2 and all(isinstance(x, ast.Name) for x in t.elts) and isinstance(s.value, ast.Call) \
+                    and isinstance(s.value.func, ast.Name) and s.value.func.id == "divmod" and len(s.value.args) == 2 \
+                    and self.fold(s.value.args[1]) == (True, 256):
+                x = s.value.args[0]
+                self.vals[t.elts[0].id] = ("hi8", U(x), x)
+                self.vals[t.elts[1].id] = ("lo8", U(x), x)
+                return
+            if isinstance(t, ast.Subscript) and isinstance(t.value, ast.Name) and self.canon(t.value.id) in self.bufs:
                 ok, i = self.fold(t.slice)
-                buf = list(self.bufs[t.value.id])
+                bn = self.canon(t.value.id)
+                buf = list(self.bufs[bn])
                 if ok and isinstance(i, int) and 0 <= i < len(buf) and buf[i][0] == "byte":
                     buf[i] = ("byte", self.vdesc(s.value), U(s.value))
-                    self.bufs[t.value.id] = buf
+                    self.bufs[bn] = buf
                     return
                 raise AnalysisError("encoder of %s: indexed store %s not understood" % (self.cls.name, U(s)))
             if is_self_attr(t):
                 self.writes_self.add(t.attr)
-                if isinstance(s.value, ast.Name) and s.value.id in self.bufs:
-                    self.stored = s.value.id
+                if self.view_of(s.value) is not None:
+                    self.stored = self.view_of(s.value)
+                    self.selfbuf = getattr(self, "selfbuf", {})
+                    self.selfbuf[t.attr] = self.stored
                 return
             raise AnalysisError("encoder of %s: assignment %s not understood" % (self.cls.name, U(s)))
+        if isinstance(s, ast.AugAssign) and isinstance(s.target, ast.Name) and isinstance(s.op, ast.Add) and self.canon(s.target.id) in self.bufs:
+            # buf += bytes  ==  buf.extend(bytes)
+            bn = self.canon(s.target.id)
+            self.bufs[bn] = self.bufs[bn] + self.bufexpr(s.value)
+            return
+        if isinstance(s, ast.AugAssign) and isinstance(s.target, ast.Name) and isinstance(s.op, ast.Add) and s.target.id in self.vals:
+            old = self.vals[s.target.id]
+            new = self.vdesc(s.value)
+            parts = (list(old[1]) if old[0] == "sum" else [old]) + (list(new[1]) if new[0] == "sum" else [new])
+            self.vals[s.target.id] = ("sum", tuple(parts))
+            return
         if isinstance(s, ast.AugAssign) and isinstance(s.target, ast.Name) and isinstance(s.op, ast.BitOr):
             old = self.vals.get(s.target.id, ("const", 0))
             self.vals[s.target.id] = self._bits_or(old, self.vdesc(s.value))
             return
         if isinstance(s, ast.Return):
-            names = [x.id for x in ast.walk(s.value) if isinstance(x, ast.Name) and x.id in self.bufs] if s.value is not None else []
+            names = [self.canon(x.id) for x in ast.walk(s.value) if isinstance(x, ast.Name) and self.canon(x.id) in self.bufs] \
+                if s.value is not None else []
+            names += [self.selfbuf[x.attr] for x in ast.walk(s.value) if is_self_attr(x) and x.attr in getattr(self, "selfbuf", {})] \
+                if s.value is not None else []
             if len(set(names)) != 1:
                 raise AnalysisError("encoder of %s: return %s not understood" % (self.cls.name, U(s)))
             self.result = names[0]
@@ -232,11 +346,42 @@ class EncoderLayout:
     def _snapshot(self):
         return {k: list(v) for k, v in self.bufs.items()}, dict(self.vals)
 
+    def _guard_text(self, test):
+        """Source text of a test with locals that merely name a field (x = self.f) written as the field."""
+        al = {k: v[1] for k, v in self.vals.items() if isinstance(v, tuple) and v and v[0] == "field"}
+        if not al:
+            return U(test)
+
+        class R(ast.NodeTransformer):
+            def visit_Name(self, n):
+                if n.id in al and isinstance(n.ctx, ast.Load):
+                    return ast.Attribute(value=ast.Name(id="self", ctx=ast.Load()), attr=al[n.id], ctx=ast.Load())
+                return n
+        import copy as _copy
+        return U(ast.fix_missing_locations(R().visit(_copy.deepcopy(test))))
+
     def _if(self, s):
-        gtxt = U(s.test)
+        gtxt = self._guard_text(s.test)
         for x in ast.walk(s.test):
             if is_self_attr(x):
                 self.fields_read.add(x.attr)
+            if isinstance(x, ast.Name) and self.vals.get(x.id, (None,))[0] == "field":
+                self.fields_read.add(self.vals[x.id][1])
+        # `buf is [not] None` for a local that holds a buffer (an optional section passed to a helper): decided
+        t = s.test
+        if isinstance(t, ast.Compare) and len(t.ops) == 1 and isinstance(t.ops[0], (ast.Is, ast.IsNot)) and isinstance(t.left, ast.Name) \
+                and isinstance(t.comparators[0], ast.Constant) and t.comparators[0].value is None:
+            nm = t.left.id
+            known = None
+            if self.canon(nm) in self.bufs:
+                known = True
+            elif self.vals.get(nm) == ("const", None):
+                known = False
+            if known is not None:
+                nonnull = known
+                take = nonnull if isinstance(t.ops[0], ast.IsNot) else (not nonnull)
+                self._run(s.body if take else s.orelse)
+                return
         # a guard that only raises
         if all(isinstance(x, ast.Raise) for x in s.body) and not s.orelse:
             self.guards.append(gtxt)
@@ -264,6 +409,11 @@ class EncoderLayout:
         merged = {}
         for k in set(b1) | set(b2):
             x, y = b1.get(k, []), b2.get(k, [])
+            # a local that names a field in one arm and holds a conversion of it in the other (x = self.f; if ..: x = bytearray(x, ..))
+            if k not in b2 and isinstance(v2.get(k), tuple) and v2[k][0] == "field":
+                y = [("raw", v2[k], "self." + v2[k][1])]
+            if k not in b1 and isinstance(v1.get(k), tuple) and v1[k][0] == "field":
+                x = [("raw", v1[k], "self." + v1[k][1])]
             base = b0.get(k, [])
             n = 0
             while n < len(x) and n < len(y) and x[n] == y[n]:
@@ -405,7 +555,8 @@ class DecoderLayout:
         self.hdr = {"found": False, "mask": None, "start": None, "plus": None}
         self.guards = []
         self.lenvar = None
-        self._run(self.fn.node.body)
+        self.body, self.helpers = inlined_body(prog, cls, self.fn)
+        self._run(self.body)
 
     def fold(self, n):
         try:
@@ -425,7 +576,14 @@ class DecoderLayout:
                 return Lin(0, (r["sym"],))
             if isinstance(r, dict) and r["kind"] == "charlen":
                 return Lin(0, (r["sym"],))
+            if isinstance(r, dict) and r["kind"] == "lin":
+                return r["lin"]
             raise AnalysisError("decoder of %s: index %s is not a length read earlier" % (self.cls.name, n.id))
+        if isinstance(n, ast.Call) and isinstance(n.func, ast.Name) and n.func.id == "decode16Int" and len(n.args) == 1:
+            # a length read in passing, inside an offset computation
+            r = self.read_expr(n, ("local", "<offset>"))
+            if r is not None and r["kind"] == "u16":
+                return Lin(0, (r["sym"],))
         if isinstance(n, ast.BinOp) and isinstance(n.op, ast.Add):
             return self.lin(n.left).add(self.lin(n.right))
         raise AnalysisError("decoder of %s: index expression %s not understood" % (self.cls.name, U(n)))
@@ -473,6 +631,9 @@ class DecoderLayout:
             c = self.cursor_of(n)
             if c is not None:
                 return self.rec("raw", target, c[1], upto=c[2], node=n)
+        if isinstance(n, ast.Name) and n.id in self.cursors and target[0] == "self":
+            # the rest of the packet from a position reached earlier
+            return self.rec("raw", target, self.cursors[n.id], upto=None, node=n)
         # rest[i:j].decode('utf-8')
         if isinstance(n, ast.Call) and isinstance(n.func, ast.Attribute) and n.func.attr == "decode":
             c = self.cursor_of(n.func.value)
@@ -583,6 +744,10 @@ class DecoderLayout:
                 else:
                     r["consumed"] = False
                 return
+            # rest2 = rest  (another name for the same position; results of inlined helpers)
+            if isinstance(t, ast.Name) and isinstance(v, ast.Name) and v.id in self.cursors:
+                self.cursors[t.id] = self.cursors[v.id]
+                return
             # rest = rest[k:]
             if isinstance(t, ast.Name) and isinstance(v, ast.Subscript) and isinstance(v.slice, ast.Slice) and v.slice.upper is None \
                     and isinstance(v.value, ast.Name) and v.value.id in self.cursors:
@@ -594,6 +759,14 @@ class DecoderLayout:
                 if r is not None:
                     self.locals[t.id] = r
                     return
+                if isinstance(v, ast.BinOp) and isinstance(v.op, ast.Add):
+                    # an offset: constants, lengths read earlier, a length read in passing
+                    mark = len(self.reads)
+                    try:
+                        self.locals[t.id] = {"kind": "lin", "lin": self.lin(v), "off": None}
+                        return
+                    except AnalysisError:
+                        del self.reads[mark:]
                 b = self.bit_expr(v)
                 if b is not None:
                     src = self._bit_source(b[0])
@@ -633,6 +806,10 @@ class DecoderLayout:
                 if isinstance(v, ast.List) and not v.elts:
                     self.rec("listinit", ("self", t.attr), None, node=v)
                     return
+                if isinstance(v, ast.Name) and isinstance(self.locals.get(v.id), dict) and self.locals[v.id]["kind"] == "bytelist":
+                    r0 = self.locals[v.id]
+                    self.rec("bytelist", ("self", t.attr), r0["off"], items=r0["items"], node=r0["node"])
+                    return
                 r = self.read_expr(v, ("self", t.attr))
                 if r is not None:
                     return
@@ -651,6 +828,48 @@ class DecoderLayout:
                     return
                 raise AnalysisError("decoder of %s: assignment %s not understood" % (self.cls.name, U(s)))
             raise AnalysisError("decoder of %s: assignment %s not understood" % (self.cls.name, U(s)))
+        if isinstance(s, ast.AugAssign) and isinstance(s.target, ast.Name) and isinstance(s.op, ast.Add) \
+                and isinstance(self.locals.get(s.target.id), dict) and self.locals[s.target.id]["kind"] in ("lin", "u16"):
+            cur = self.lin(s.target)
+            self.locals[s.target.id] = {"kind": "lin", "lin": cur.add(self.lin(s.value)), "off": None}
+            return
+        if isinstance(s, ast.For) and isinstance(s.target, ast.Name) and not s.orelse and self.cursor_of(s.iter) is not None:
+            # for b in rest[k:]: one record per byte, appended to a list (the loop form of a comprehension over the packet's tail)
+            c = self.cursor_of(s.iter)
+            var = s.target.id
+            parts = {}
+            dest = None
+            items = None
+            for b in s.body:
+                if isinstance(b, ast.Assign) and len(b.targets) == 1 and isinstance(b.targets[0], ast.Name):
+                    be = self.bit_expr(b.value)
+                    if be is None or U(be[0]) != var:
+                        raise AnalysisError("decoder of %s: loop statement %s not understood" % (self.cls.name, U(b)))
+                    parts[b.targets[0].id] = {"mask": be[1], "shift": be[2], "cmp": be[3]}
+                    continue
+                if isinstance(b, ast.Expr) and isinstance(b.value, ast.Call) and isinstance(b.value.func, ast.Attribute) \
+                        and b.value.func.attr == "append" and len(b.value.args) == 1 and dest is None:
+                    d = b.value.func.value
+                    dest = ("self", d.attr) if is_self_attr(d) else (("local", d.id) if isinstance(d, ast.Name) else None)
+                    e = b.value.args[0]
+                    items = []
+                    for x in (e.elts if isinstance(e, ast.Tuple) else [e]):
+                        if isinstance(x, ast.Name) and x.id in parts:
+                            items.append(parts[x.id])
+                            continue
+                        be = self.bit_expr(x)
+                        if be is None or U(be[0]) != var:
+                            raise AnalysisError("decoder of %s: loop element %s not understood" % (self.cls.name, U(x)))
+                        items.append({"mask": be[1], "shift": be[2], "cmp": be[3]})
+                    continue
+                raise AnalysisError("decoder of %s: loop statement %s not understood" % (self.cls.name, U(b)))
+            if dest is None or items is None:
+                raise AnalysisError("decoder of %s: loop over %s collects nothing" % (self.cls.name, U(s.iter)))
+            if dest[0] == "self":
+                self.rec("bytelist", dest, c[1], items=items, node=s)
+            else:
+                self.locals[dest[1]] = {"kind": "bytelist", "off": c[1], "items": items, "node": s}
+            return
         if isinstance(s, ast.If):
             g = U(s.test)
             desc = self._cond_desc(s.test)
@@ -662,15 +881,24 @@ class DecoderLayout:
                 self.guards.pop()
                 return
             cur0 = dict(self.cursors)
+            lin0 = {k: v for k, v in self.locals.items() if isinstance(v, dict) and v.get("kind") == "lin"}
             self.guards.append((g, True, desc))
             self._run(s.body)
             self.guards.pop()
             cur1 = dict(self.cursors)
+            lin1 = {k: v for k, v in self.locals.items() if isinstance(v, dict) and v.get("kind") == "lin"}
             self.cursors = dict(cur0)
+            self.locals.update(lin0)
             self.guards.append((g, False, desc))
             self._run(s.orelse)
             self.guards.pop()
             cur2 = dict(self.cursors)
+            lin2 = {k: v for k, v in self.locals.items() if isinstance(v, dict) and v.get("kind") == "lin"}
+            for k in set(lin1) | set(lin2):
+                a, b = lin1.get(k), lin2.get(k)
+                if a is not None and b is not None and a["lin"] != b["lin"]:
+                    base = lin0[k]["lin"] if k in lin0 else Lin(0)
+                    self.locals[k] = {"kind": "lin", "lin": base.add(Lin(0, ("opt@%s" % g,))), "off": None}
             # after an optional section the cursor is symbolic
             for k in set(cur1) | set(cur2):
                 a, b = cur1.get(k), cur2.get(k)
